@@ -78,7 +78,7 @@ PROPS = {
     "C02": wire_prop("C02", ["decoders_safe", "openValue_safe", "parseValue_safe", "parseList_safe", "parseMessage_safe",
                              "list_accessors_safe", "message_accessors_safe", "genStructFields_safe", "genStructDecode_safe"],
                      ["c02"], {"assumptions": ["Go slices/ints as modelled (64-bit int, no overflow below 2^63)", "index out of range on List.Get(i) with i >= Len() is caller misuse, not hostile data"]}),
-    "C13": wire_prop("C13", ["decoders_local", "parse_local", "parse_depends_only_on_value", "reparse", "fuel_irrelevant", "parse_probe_agree", "parse_open_agree"],
+    "C13": wire_prop("C13", ["decoders_local", "parse_local", "parse_depends_only_on_value", "reparse", "fuel_irrelevant", "parse_probe_agree", "parse_open_agree", "parse_openMessage_agree", "parse_openList_agree"],
                      ["c13"], {"assumptions": ["the agreement theorems cover 'parser accepts => probe and open report the same size and bytes'; the probe accepting more than the recursive parser is by design"]}),
     "C01": writer_prop("C01", ["parse_exact", "probe_exact", "list_roundtrip", "msg_field_found", "msg_field_absent",
                                 "msg_enumerates_written", "absent_reads_zero", "writer_refines_layout",
